@@ -1017,8 +1017,11 @@ func (c *BitcoindClient) rescan(start chainhash.Hash) error {
 				time.Unix(previousHeader.Time, 0),
 			)
 
-			// Get the previous block of the best chain.
-			hash, err := c.GetBlockHash(int64(i - 1))
+			// Get the previous block of the best chain: the block
+			// to process next is the one at the height that was
+			// just disconnected.
+			i--
+			hash, err := c.GetBlockHash(int64(i))
 			if err != nil {
 				return err
 			}
@@ -1028,21 +1031,20 @@ func (c *BitcoindClient) rescan(start chainhash.Hash) error {
 			}
 
 			// Then, we'll the get the header of this previous
-			// block.
+			// block. If it's already in the headers list, we can
+			// just get it from there after removing the current
+			// hash.
 			if headers.Back() != nil {
-				// If it's already in the headers list, we can
-				// just get it from there and remove the
-				// current hash.
 				headers.Remove(headers.Back())
-				if headers.Back() != nil {
-					previousHeader = headers.Back().
-						Value.(*btcjson.GetBlockHeaderVerboseResult)
-					previousHash, err = chainhash.NewHashFromStr(
-						previousHeader.Hash,
-					)
-					if err != nil {
-						return err
-					}
+			}
+			if headers.Back() != nil {
+				previousHeader = headers.Back().
+					Value.(*btcjson.GetBlockHeaderVerboseResult)
+				previousHash, err = chainhash.NewHashFromStr(
+					previousHeader.Hash,
+				)
+				if err != nil {
+					return err
 				}
 			} else {
 				// Otherwise, we get it from bitcoind.
